@@ -425,8 +425,6 @@ func c10Bases() []c10Base {
 		{"transient-remove", c10Msg("t1", "transient", kv("transient", jo(kv("type", js("remove")), kv("key", js("k1"))))), cl},
 		{"transient-other", c10Msg("t1", "transient", kv("transient", jo(kv("type", js("get"))))), cl},
 		{"unknown-type", c10Msg("u1", "foo"), cl},
-		// appended (the bases above are referred to by index)
-		{"control-session-self", message("control", c10Recipient("session", kv("sessionid", js(c10Sid))), plain), cl},
 	}
 }
 
@@ -684,7 +682,7 @@ func (g *c10Gen) enumerate(maxDepth int) {
 				// the recipients that name the sender (and the call) in the room, as client and as internal client
 				home := []int{2, 8, 3, 1, 4, 5}
 				if di > 0 {
-					if ri >= 4 && rc.n != "call" {
+					if ri >= 4 && rc.n != "call" || rc.n == "session-userid-too" {
 						continue
 					}
 					home = []int{2, 3}
